@@ -614,15 +614,13 @@ theorem C09_sysfs_slash_name_counterexample : ¬ C09_sysfs_agrees_with_procfs_Fu
   injection h2 with h3 _
   exact absurd h3 (by decide)
 
-/- TO UNCOMMENT once fixes/C09-sysfs-slash-name.diff has landed in /repo (the translator fact
-   `sysfsNameReplace` is then `some (33, 47)`); until then these two do not build:
-
+/-- proof obligation on the translator's fact (fix da4a5df landed): `read_sysfs` maps the sysfs
+    directory name back with `.replace('!', '/')`; a return to the bare `basename(root)` breaks this -/
 theorem cfg_sysfs_unbang : sysfsCfg.nameReplace = some (33, 47) := by decide
 
 /-- both sources agree for the code as it is -/
 theorem C09_sysfs_agrees_with_procfs_full : C09_sysfs_agrees_with_procfs_Full sysfsCfg :=
   C09_sysfs_agrees_with_procfs cfg_sysfs_unbang
--/
 
 /-! ## disk_usage -/
 
